@@ -4,8 +4,13 @@
 (* VECTORS and derived values must be those of the resulting map.             *)
 (*   {"a":"Reset",  "bl":[],"al":[],"s":0,"post":P}   book forced by harness  *)
 (*   {"a":"Snapshot"|"Update","bl":[..],"al":[..],"s":n,"post":P}            *)
-(*   {"a":"Noop", ...}    manager input that carries nothing for this book    *)
-(*                        (reconnect notice, other / unknown instrument)      *)
+(*   {"a":"Noop", ...}    manager input that carries no book event            *)
+(*                        (reconnect notice)                                  *)
+(*   every line: "inst" = whom the event is addressed to: "own" (this book's  *)
+(*   instrument), "other" (another instrument: configured in an               *)
+(*   OrderBookMapMulti, or not configured in an OrderBookMapSingle),          *)
+(*   "unknown" (in no map), "none".  For an event that is not this book's own *)
+(*   - whatever it carries - only OrderBook!ManagerSkip is allowed.           *)
 (* P = {bids:[{p,a}..], asks:[..], seq, mid2, vwm, d0, d1, d2, dL}:           *)
 (*   mid2 = 2 * mid_price (integer prices), vwm = volume weighted mid in      *)
 (*   milli-units truncated, -1 = None;  dN = snapshot(N) as {bids,asks,seq}.  *)
@@ -46,24 +51,25 @@ TReset == /\ Rec[l].a = "Reset"
           /\ last' = EvOf(Rec[l])
           /\ bad' = IF PostOK(Rec[l].post, Logged(Rec[l].post)) THEN bad ELSE Append(bad, l)
 
-TSnapshot == /\ Rec[l].a = "Snapshot"
+TSnapshot == /\ Rec[l].a = "Snapshot" /\ Rec[l].inst = "own"
              /\ Snapshot(Rec[l].bl, Rec[l].al, Rec[l].s)         \* the spec's own action
              /\ PostOK(Rec[l].post, Book')
              /\ UNCHANGED bad
 
-TUpdate == /\ Rec[l].a = "Update"
+TUpdate == /\ Rec[l].a = "Update" /\ Rec[l].inst = "own"
            /\ Update(Rec[l].bl, Rec[l].al, Rec[l].s)             \* the spec's own action
            /\ PostOK(Rec[l].post, Book')
            /\ UNCHANGED bad
 
-TNoop == /\ Rec[l].a = "Noop"
+TNoop == /\ (Rec[l].a = "Noop" \/ (Rec[l].a \in {"Snapshot", "Update"} /\ Rec[l].inst # "own"))
          /\ ManagerSkip
          /\ PostOK(Rec[l].post, Book')
          /\ UNCHANGED bad
 
 StepOK(r) ==
   LET e == EvOf(r)  p == r.post IN
-  CASE r.a = "Snapshot" -> CleanList(e.b) /\ CleanList(e.a) /\ PostOK(p, SnapshotResult(e.b, e.a, e.s))
+  CASE r.a \in {"Snapshot", "Update"} /\ r.inst # "own" -> PostOK(p, Book)        \* another instrument's event
+    [] r.a = "Snapshot" -> CleanList(e.b) /\ CleanList(e.a) /\ PostOK(p, SnapshotResult(e.b, e.a, e.s))
     [] r.a = "Update"   -> \E b \in UpdateResults(Book, e.b, e.a, e.s) : PostOK(p, b)
     [] r.a = "Noop"     -> PostOK(p, Book)
     [] OTHER            -> FALSE
